@@ -56,7 +56,7 @@ def run_case(ctx, case):
     fresh = ux.grid_from_mesh(m)
     areas = np.array(fresh.compute_face_areas(*rule)[0] if rule else fresh.compute_face_areas()[0], dtype=float)
     kw = {"quadrature_rule": rule[0], "order": rule[1]} if rule else {}
-    sig = {"dtype": case["dtype"], "rank": len(lead) + 1, "rule": "default" if rule is None else "%s-%d" % rule, "history": case["history"]}
+    sig = {"dtype": case["dtype"], "rank": len(lead) + 1, "rule": "default" if rule is None else "%s-%d" % rule, "history": case["history"], "with_nan": bool(case["dtype"].startswith("float") and case["dseed"] % 5 == 0)}
 
     def mk(shape):
         if case["dtype"] == "bool":
@@ -66,6 +66,11 @@ def run_case(ctx, case):
         return rng.normal(size=shape).astype(case["dtype"])
 
     a = mk(tuple(lead) + (m.n_face,))
+    with_nan = case["dtype"].startswith("float") and case["dseed"] % 5 == 0
+    if with_nan:
+        # missing values: the integral over a region with a missing face value is missing (NaN), never a finite number
+        a[..., rng.integers(0, m.n_face)] = np.nan
+        ctx.observe("data_with_nan")
     # memory layout of the data: C order, Fortran order, a transposed view of face-major storage (model output is often
     # written (n_face, lev, time) and transposed), a strided view
     layout = case.get("layout", "C")
@@ -101,12 +106,12 @@ def run_case(ctx, case):
         want = np.tensordot(a.astype(float), areas, axes=([-1], [0]))
         got = np.asarray(r.values, dtype=float)
         tol = 1e-12 if case["dtype"] != "float32" else 1e-6
-        ok = got.shape == want.shape and np.allclose(got, want, rtol=tol, atol=tol * float(np.sum(areas)))
+        ok = got.shape == want.shape and np.allclose(got, want, rtol=tol, atol=tol * float(np.sum(areas)), equal_nan=True)
         ctx.check("weighted_sum", ok, sig, {"got": np.ravel(got)[:4].tolist(), "want": np.ravel(want)[:4].tolist(), "mesh": d})
         ok = isinstance(r, U.UxDataArray) and tuple(r.dims) == tuple(ldims) and r.name == "psi" and r.uxgrid is g
         ctx.check("metadata", ok, sig, {"type": type(r).__name__, "dims": list(r.dims), "name": r.name, "same_grid": r.uxgrid is g})
         # linearity (float data)
-        if case["dtype"].startswith("float64"):
+        if case["dtype"].startswith("float64") and not with_nan:
             b = mk(tuple(lead) + (m.n_face,))
             c = 2.0 * a - 0.5 * b
             try:
